@@ -89,6 +89,27 @@ def strings_sec():
     return run
 
 
+def values_sec(fn_name, **kw):
+    def run(tier, seed, rep):
+        import sec_values
+        import findings
+        stats, mism, fails = getattr(sec_values, fn_name)(tier, seed, **kw)
+        known = common.load_findings()
+        real, n_known = [], 0
+        for f in fails:
+            if findings.match_known(rep.prop, f, known) is None:
+                real.append(f)
+            else:
+                n_known += 1
+        stats['oracle_failures_in_known_class'] = n_known
+        return stats, mism, real[:3]
+    return run
+
+
+VALUE_MODULES = ['PP.Model.PyStr', 'PP.Model.Combinators', 'PP.Model.StrDoc', 'PP.Model.Values']
+VALUE_TRUSTED = ['the value printers are modelled by hand (PP/Model/Values.lean, Combinators.lean, StrDoc.lean); the value-level claims below rest on '
+                 'C04.sound (engine) + the correspondence + the CPython-side oracle evaluated on every implementation output of this run']
+
 ENGINE_MODULES = ['PP.Model.Doc', 'PP.Model.Normalize', 'PP.Model.Layout', 'PP.Model.Render', 'PP.Spec.Lay',
                   'PP.Proofs.LayNormalize', 'PP.Proofs.Sound']
 
@@ -147,5 +168,57 @@ REGISTRY = {
         'rule': 'string functions called directly (exhaustive over an adversarial alphabet) and the evaluator of pretty_str through the layout engine',
         'assumptions': ['str.isprintable, \\w and \\s classification of each character are inputs to the model (computed by CPython in the harness); theorems hold for all values of those bits',
                         'repr(str)/repr(bytes) are modelled (reprCharStr/reprCharBytes) and compared with CPython on every case'],
+    },
+    'C01': {
+        'theorems': ['PP.C04.sound', 'PP.C02.lines_join', 'PP.C02.lines_nonempty', 'PP.C01.sorted_perm', 'PP.C01.insertion_order'],
+        'modules': VALUE_MODULES + ['PP.Props.Values'],
+        'sections': [{'name': 'builtin-values', 'run': values_sec('builtin_values_section')}],
+        'trusted': VALUE_TRUSTED,
+        'rule': 'pformat of built-in value trees vs the model (SDoc stream + text), eval oracle with exact types',
+    },
+    'C03': {
+        'theorems': ['PP.C04.sound', 'PP.C02.lines_join', 'PP.C03.nests_are_indent'],
+        'modules': VALUE_MODULES + ['PP.Props.Values'],
+        'sections': [{'name': 'builtin-values', 'run': values_sec('builtin_values_section')},
+                     {'name': 'comments', 'run': values_sec('comments_section', mode='c03')},
+                     {'name': 'subclasses', 'run': values_sec('subclasses_section')},
+                     {'name': 'calls', 'run': values_sec('calls_section')}],
+        'trusted': VALUE_TRUSTED,
+        'rule': 'same syntax tree (ast.dump) across all layout settings of each value; every line indented by a multiple of indent',
+    },
+    'C08': {
+        'theorems': ['PP.C04.sound', 'PP.C08.wrapper_shape', 'PP.C08.wrapper_seq', 'PP.C08.wrapper_int'],
+        'modules': VALUE_MODULES + ['PP.Props.Values'],
+        'sections': [{'name': 'subclasses', 'run': values_sec('subclasses_section')}],
+        'trusted': VALUE_TRUSTED,
+        'rule': 'instances of generated subclasses of the nine built-in bases, nested, all layouts; eval reconstructs class and value',
+    },
+    'C09': {
+        'theorems': ['PP.C04.sound', 'PP.C09.commentdoc_lines', 'PP.C09.empty_comment_ignored'],
+        'modules': VALUE_MODULES + ['PP.Props.Values'],
+        'sections': [{'name': 'comments', 'run': values_sec('comments_section')}],
+        'trusted': VALUE_TRUSTED,
+        'rule': 'comment / trailing_comment placements, adversarial texts; eval == uncommented value, same ast, words preserved',
+    },
+    'C10': {
+        'theorems': ['PP.C04.sound', 'PP.C10.truncation_text', 'PP.C10.no_limit', 'PP.C10.large_limit'],
+        'modules': VALUE_MODULES + ['PP.Props.Values'],
+        'sections': [{'name': 'truncation', 'run': values_sec('truncation_section')}],
+        'trusted': VALUE_TRUSTED,
+        'rule': 'container trees x max_seq_len in {1..maxlen+1, None}',
+    },
+    'C11': {
+        'theorems': ['PP.C04.sound', 'PP.C11.depth_zero_placeholder', 'PP.C11.unlimited_never_zero'],
+        'modules': VALUE_MODULES + ['PP.Props.Values'],
+        'sections': [{'name': 'depth', 'run': values_sec('depth_section')}],
+        'trusted': VALUE_TRUSTED,
+        'rule': 'container trees with unique leaves x depth in {0..height+2, None}',
+    },
+    'C17': {
+        'theorems': ['PP.C04.sound', 'PP.C17.empty_call', 'PP.C17.hug_only_exact'],
+        'modules': VALUE_MODULES + ['PP.Props.Values'],
+        'sections': [{'name': 'calls', 'run': values_sec('calls_section')}],
+        'trusted': VALUE_TRUSTED,
+        'rule': 'objects printed through pretty_call_alt: args/kwargs order, nesting, comments; dataclasses/attrs field selection',
     },
 }
